@@ -27,6 +27,10 @@ struct Slot {
     /// what the caller's task owns and lets go of when its waker is released for the last time (e.g. the retained
     /// foreign-side waker of another task: the release of one caller waker then re-enters the library)
     on_release: Mutex<Option<Waker>>,
+    /// armed by the harness: runs inside the NEXT release of one of the caller waker's references, before that release
+    /// returns (the caller's callback is a point at which another thread can be made to run)
+    #[allow(clippy::type_complexity)]
+    in_release: Mutex<Option<Box<dyn FnOnce() + Send>>>,
 }
 
 impl Slot {
@@ -36,7 +40,11 @@ impl Slot {
         }
     }
     fn dec(&self) {
+        let hook = self.in_release.lock().unwrap().take();
         let now = self.refs.fetch_sub(1, SeqCst) - 1;
+        if let Some(h) = hook {
+            h();
+        }
         if now < 0 {
             self.below_start.store(true, SeqCst);
         }
@@ -116,6 +124,7 @@ fn manual_waker(null_data: bool) -> (Waker, &'static Slot) {
         touched_after_release: AtomicBool::new(false),
         below_start: AtomicBool::new(false),
         on_release: Mutex::new(None),
+        in_release: Mutex::new(None),
     }));
     if null_data {
         NULL_SLOT.store(slot as *const Slot as *mut Slot, SeqCst);
@@ -649,6 +658,96 @@ fn chain_case(n: usize, by_wake: bool) -> CaseOut {
     out
 }
 
+/// While the last handle of a waker family is being released (inside the release of the caller's waker clone it held), ANOTHER
+/// thread polls the task again with the same caller waker and retains the waker it is given. The new handle must be a
+/// fully valid one: waking it wakes the caller, letting go of it releases exactly what it acquired.
+fn repoll_during_release_case(first_by_wake: bool, second_by_wake: bool) -> CaseOut {
+    let (w, slot) = manual_waker(false);
+    let world = Arc::new(Mutex::new(World::default()));
+    let mut obj = trait_obj!(Scripted(world.clone()) as Future);
+    world.lock().unwrap().pending = vec![Act::CloneCx];
+    {
+        let mut cx = Context::from_waker(&w);
+        let _ = Future::poll(Pin::new(&mut obj), &mut cx);
+    }
+    let h1 = match world.lock().unwrap().wakers.pop() {
+        Some(x) => x.0,
+        None => return CaseOut::bad("harness", "no waker retained"),
+    };
+    // arm: inside the next release of a caller reference, a second thread polls and retains
+    struct SendPtr<T>(*mut T);
+    unsafe impl<T> Send for SendPtr<T> {}
+    let objp = SendPtr(&mut obj as *mut _);
+    let wp = SendPtr(&w as *const Waker as *mut Waker);
+    let world2 = world.clone();
+    *slot.in_release.lock().unwrap() = Some(Box::new(move || {
+        let (objp, wp) = (objp, wp);
+        std::thread::spawn(move || {
+            let (objp, wp) = (objp, wp);
+            world2.lock().unwrap().pending = vec![Act::CloneCx];
+            // the main thread is parked inside the release callback: nothing else touches the object or the caller's waker
+            let obj = unsafe { &mut *objp.0 };
+            let w = unsafe { &*(wp.0 as *const Waker) };
+            let mut cx = Context::from_waker(w);
+            let _ = Future::poll(Pin::new(obj), &mut cx);
+        })
+        .join()
+        .unwrap();
+    }));
+    let mut wake_ops = 0u64;
+    if first_by_wake {
+        h1.wake();
+        wake_ops += 1;
+    } else {
+        drop(h1);
+    }
+    if slot.in_release.lock().unwrap().is_some() {
+        return CaseOut::bad("harness", "letting go of the only foreign-side handle did not release a reference of the caller's waker");
+    }
+    let h2 = match world.lock().unwrap().wakers.pop() {
+        Some(x) => x.0,
+        None => return CaseOut::bad("harness", "the second poll retained no waker"),
+    };
+    let at = |what: &str| format!("second poll inside the release of the first family ({} / {}): {}", if first_by_wake { "woken by value" } else { "dropped" }, if second_by_wake { "wake" } else { "wake_by_ref + drop" }, what);
+    let check = |stage: &str, live: i64, wake_ops: u64| -> Option<(String, String)> {
+        let refs = slot.refs.load(SeqCst);
+        if slot.below_start.load(SeqCst) || refs < 1 {
+            return Some(("waker:over_release".into(), at(&format!("{}: caller refcount {}", stage, refs))));
+        }
+        if slot.touched_after_release.load(SeqCst) {
+            return Some(("waker:use_after_release".into(), at(stage)));
+        }
+        if live > 0 && refs < 2 {
+            return Some(("waker:released_early".into(), at(&format!("{}: a foreign-side waker is alive but no clone of the caller's waker is held (refcount {})", stage, refs))));
+        }
+        if live == 0 && refs != 1 {
+            return Some(("waker:leak".into(), at(&format!("{}: no foreign-side waker is left, caller refcount {}", stage, refs))));
+        }
+        if slot.wakes.load(SeqCst) != wake_ops {
+            return Some(("waker:wake_count".into(), at(&format!("{}: {} wake operation(s), caller woken {} time(s)", stage, wake_ops, slot.wakes.load(SeqCst)))));
+        }
+        None
+    };
+    let mut bad = check("after the first family is gone", 1, wake_ops);
+    if bad.is_none() {
+        if second_by_wake {
+            h2.wake();
+        } else {
+            h2.wake_by_ref();
+            drop(h2);
+        }
+        wake_ops += 1;
+        bad = check("after the second handle is gone", 0, wake_ops);
+    } else {
+        std::mem::forget(h2);
+    }
+    drop(obj);
+    drop(w);
+    let mut out = CaseOut::ok(digest(&(first_by_wake, second_by_wake, slot.wakes.load(SeqCst))));
+    out.violation = bad;
+    out
+}
+
 fn main() {
     std::panic::set_hook(Box::new(|_| {}));
     let mut sections = Vec::new();
@@ -700,6 +799,18 @@ fn main() {
             }
         }),
         replay: Box::new(|case: &Value| chain_case(case["n"].as_u64().unwrap() as usize, case["by_wake"].as_bool().unwrap())),
+    });
+    sections.push(Section {
+        name: "repoll_during_release",
+        explore: Box::new(|cx: &Cx| {
+            cx.rule("repoll_during_release", "a second thread polls the task again - and retains the waker it is given - exactly while the last handle of the first waker family is being released (the caller's release callback is used as the scheduling point: the first thread is parked inside it); first handle dropped / woken by value x second handle woken by value / by reference and dropped; the new handle is fully valid, counts and wakes as in the sequential case");
+            for a in [false, true] {
+                for b in [false, true] {
+                    cx.eval("repoll_during_release", &serde_json::json!({"first_by_wake": a, "second_by_wake": b}), || repoll_during_release_case(a, b));
+                }
+            }
+        }),
+        replay: Box::new(|case: &Value| repoll_during_release_case(case["first_by_wake"].as_bool().unwrap(), case["second_by_wake"].as_bool().unwrap())),
     });
     explore::run_main(CheckDef {
         property: "C19",
